@@ -388,6 +388,23 @@ def cell_edges(ctx, crate):
     ok = all(p_[0][0] == p_[1][0] for p_ in pairs)
     got = sorted(tuple(sorted((p_[0][1], p_[1][1]))) for p_ in pairs) if ok else None
     ok = ok and got == [(0, 1), (0, 3), (1, 2), (2, 3)]
+    if ok:
+        # and the answer is their disjunction: read on the 16 combinations of outcomes
+        from rules.common import feval, explore_leaves
+        calls = [ev.ret for ev in e.events.values() if ev.callee in iga]
+        lv = explore_leaves(crate, fns[0], opaque=iga, max_tests=6)
+        from rules.common import feval_leaves
+        okor = lv is not None
+        if okor:
+            for m in range(16):
+                env = {c_: bool((m >> k_) & 1) for k_, c_ in enumerate(calls)}
+                # a leaf forces the outcomes it tested; the others are not evaluated on that path (short circuit)
+                got = None
+                for forced, el, rl in lv:
+                    if all(bool(env.get(t_, None)) == bool(cv[2]) for t_, cv in forced.items() if t_ in env) and all(t_ in env for t_ in forced):
+                        got = feval(rl.ret, env, el) if rl.returns else None; break
+                if got is None or bool(got) != (m != 0): okor = False; break
+        ctx.report(clause, "has_intersection:any-of-the-four", okor, "true iff at least one of the four edge tests is (16 combinations)" if okor else "the four edge tests are not combined by `or`", at=b.span, kind="N")
     ctx.report(clause, "has_intersection:four-edges", ok, "edges tested: {S,E}, {E,N}, {N,W}, {W,S}" if ok else "pairs of vertices tested: %s — not the four edges of the cell" % (got if got is not None else pairs), at=b.span, kind="N")
 
 
